@@ -221,7 +221,7 @@ func noInitPkg(path string) bool {
 		"github.com/btcsuite/btcd/btcec/v2", "github.com/decred/dcrd/dcrec/secp256k1/v4",
 		"github.com/btcsuite/btcd/btcec/v2/ecdsa", "github.com/btcsuite/btcd/btcec/v2/schnorr",
 		"github.com/decred/dcrd/dcrec/secp256k1/v4/ecdsa", "github.com/decred/dcrd/dcrec/secp256k1/v4/schnorr",
-		"go.etcd.io/bbolt", "golang.org/x/sys/unix", "golang.org/x/crypto/ripemd160",
+		"golang.org/x/sys/unix", "golang.org/x/crypto/ripemd160",
 		"github.com/davecgh/go-spew/spew", "github.com/lightninglabs/neutrino",
 		"github.com/btcsuite/btcd/rpcclient", "github.com/btcsuite/websocket", "net/http":
 		return true
